@@ -203,7 +203,10 @@ func runConc(id int, r *rng.R, clk *vclock.Clock) (*concInput, []chainh.Failure,
 				if t.Inb {
 					tt = base.Inbound
 				}
-				opts := []sentinel.EntryOption{sentinel.WithTrafficType(tt), sentinel.WithBatchCount(t.Batch)}
+				opts := []sentinel.EntryOption{sentinel.WithBatchCount(t.Batch)}
+				if t.Inb || gi%2 == 0 { // odd goroutines rely on the default (Outbound) of the pooled options
+					opts = append(opts, sentinel.WithTrafficType(tt))
+				}
 				if t.RType != 0 {
 					opts = append(opts, sentinel.WithResourceType(base.ResourceType(t.RType)))
 				}
